@@ -2,12 +2,13 @@
 # Regression over the seeded changes WITHOUT touching /repo: a scratch worktree of /repo's HEAD and a scratch copy of
 # the harness (pointed at that worktree) under /dev/shm, one seeded change applied at a time there.
 # Prints one line per change: DETECTED / MISSED, like run_seeded.sh. Removes everything it created.
-# usage: run_seeded_scratch.sh [-t tier] [-s VERIF_SEED] [seeded-id ...]     (default: all of /verif/seeded/*)
+# usage: run_seeded_scratch.sh [-t tier] [-s VERIF_SEED] [-P property whose check is run instead of the change's own] [seeded-id ...]     (default: all of /verif/seeded/*)
 HERE="$(cd "$(dirname "$0")/.." && pwd)"
 TIER=quick
 SEED=""
-while [ "$1" = "-t" ] || [ "$1" = "-s" ]; do
-  if [ "$1" = "-t" ]; then TIER="$2"; else SEED="$2"; fi
+PROPOVR=""
+while [ "$1" = "-t" ] || [ "$1" = "-s" ] || [ "$1" = "-P" ]; do
+  if [ "$1" = "-t" ]; then TIER="$2"; elif [ "$1" = "-P" ]; then PROPOVR="$2"; else SEED="$2"; fi
   shift 2
 done
 [ -n "$SEED" ] && export VERIF_SEED="$SEED"
@@ -22,6 +23,7 @@ sed -i "s#\"/repo/#\"$W/repo/#g" "$W/verif/sim/Cargo.toml" "$W/verif/sim/src/mai
 for id in $IDS; do
   d="$HERE/seeded/$id"
   prop=$(python3 -c "import json;print(json.load(open('$d/meta.json'))['property'])")
+  [ -n "$PROPOVR" ] && prop="$PROPOVR"
   if ! git -C "$W/repo" apply "$d/patch.diff" 2>/dev/null; then echo "$id $prop PATCH-DOES-NOT-APPLY"; continue; fi
   out=$(cd "$W/verif" && ./check "$prop" --tier "$TIER" --no-evidence 2>&1); code=$?
   git -C "$W/repo" checkout -q -- . ; git -C "$W/repo" clean -qfd
